@@ -139,6 +139,7 @@ class UpdateLocationAnswer(UpdateLocation):
         setattr(self, "load", [])
         setattr(self, "reset_id", [])
         setattr(self, "failed_avp", [])
+        setattr(self, "supported_features", [])
         setattr(self, "proxy_info", [])
         setattr(self, "route_record", [])
 
